@@ -280,7 +280,8 @@ def backends(ctx, hb, classify, mexe=None):
     corpus = os.path.join(c.ROOT, "corpus", "C01")
     if ctx.replay:
         payload = json.load(open(ctx.replay)).get("replay", {})
-        open(cases, "w").write((payload.get("case_line") or "") + "\n")
+        # an aliasing violation needs the decodes that follow the offending one in the same process
+        open(cases, "w").write("\n".join(payload.get("case_lines") or [payload.get("case_line") or ""]) + "\n")
     else:
         nt, ni = sizes(ctx.tier)
         rc, out = c.sh([hb, "-mode", "gen", "-seed", str(ctx.seed + 11), "-ntypes", str(nt), "-ninputs", str(ni),
@@ -300,6 +301,8 @@ def backends(ctx, hb, classify, mexe=None):
             return rep
         outs[name] = list(_lines(path))
     case_by_id = {f[0]: f for f in _lines(cases)}
+    order = list(case_by_id)
+    pos = {cid: i for i, cid in enumerate(order)}
     dist = collections.Counter()
     n = 0
     seen = set()
@@ -313,7 +316,7 @@ def backends(ctx, hb, classify, mexe=None):
             rep["problems"].append(("T", "model driver failed: " + out[-800:]))
         else:
             mod = {f[0]: f for f in _lines(mres)}
-    skip_tags = {"jit": {"unterm32"}, "opt": {"b64pad", "badutf8"}, "fast": {"b64pad", "badutf8"}}
+    skip_tags = {"jit": {"unterm32"}, "opt": {"badutf8"}, "fast": {"badutf8"}}
     cols = {"jit": 1, "opt": 5, "fast": 7}
 
     def tie(name, r):
@@ -331,6 +334,11 @@ def backends(ctx, hb, classify, mexe=None):
             return None  # optdec re-parses the rewritten buffer: panics, and raw text taken after in-place unescaping
         return not (m[col] != r[1] or (m[col] == "O" and m[col + 1] != r[7]))
 
+    def late(r):
+        """the dump taken at the end of the run (all destinations are kept alive until then)"""
+        return r[2] if len(r) < 9 or r[8] == "=" else r[8]
+
+    aliased = collections.Counter()
     for a, b, f in zip(outs["jit"], outs["opt"], outs["fast"]):
         if len(a) < 7 or len(b) < 7 or len(f) < 7:
             continue
@@ -350,13 +358,21 @@ def backends(ctx, hb, classify, mexe=None):
             kinds.append("panic-opt")
         if structural == "M" and "O" in (a[1], b[1], f[1]):
             kinds.append("malformed")
-        if valid == "V":
+        # a destination that changed after its Unmarshal returned (seen at the end of the run, after every other case
+        # was decoded in the same process and two collections): memory shared with something the decoder reused
+        for nm, rr in (("jit", a), ("opt", b), ("fast", f)):
+            if len(rr) >= 10 and rr[1] == "O" and (rr[8] != "=" or rr[9] != "="):
+                kinds.append("alias-" + nm)
+                aliased[nm] += 1
+        if kinds and kinds[-1].startswith("alias-"):
+            pass  # reported as such; the value comparisons below would only repeat it
+        elif valid == "V":
             if a[1] != "P" and b[1] != "P":
                 if a[1] != b[1]:
                     kinds.append("jo-err")
-                elif a[1] == "O" and a[2] != b[2]:
+                elif a[1] == "O" and late(a) != late(b):
                     kinds.append("jo-val")
-            if b[1] != "P" and f[1] != "P" and (b[1] != f[1] or (b[1] == "O" and b[2] != f[2])):
+            if b[1] != "P" and f[1] != "P" and (b[1] != f[1] or (b[1] == "O" and late(b) != late(f))):
                 kinds.append("of")
         for k in kinds:
             fid = classify(k, tags, a[1], b[1], f[1])
@@ -365,11 +381,18 @@ def backends(ctx, hb, classify, mexe=None):
                 rep["known"][fid] += 1
             else:
                 # a listed finding excuses a divergence only when every process did what the model of that finding says
-                rep["bad"].append({"kind": k, "classified_as": fid, "processes_off_model": off, "case_line": "\t".join(cs), "config": cs[1], "type": cs[3], "initial": cs[4],
+                extra = {}
+                if k.startswith("alias-"):
+                    i0 = pos[a[0]]
+                    extra = {"case_lines": ["\t".join(case_by_id[c2]) for c2 in order[i0:i0 + 80]],
+                             "what_changed": "the destination of this case was dumped right after Unmarshal returned and again at the end of the "
+                                             "process (after the following cases were decoded and two collections): the two dumps differ"}
+                rep["bad"].append({"kind": k, "classified_as": fid, "processes_off_model": off, **extra, "case_line": "\t".join(cs), "config": cs[1], "type": cs[3], "initial": cs[4],
                                    "input": _show_input(cs[5]), "input_hex": cs[5], "tags": tags, "valid_json": valid, "structure": structural,
                                    "jit": a[1] + " " + a[2][:300] + " " + a[3][:160], "optdec": b[1] + " " + b[2][:300] + " " + b[3][:160],
-                                   "optdec_fastmap": f[1] + " " + f[2][:300] + " " + f[3][:160]})
-    rep.update({"n": n, "dist": dist, "nontrivial": nontrivial, "distinct": len(seen)})
+                                   "optdec_fastmap": f[1] + " " + f[2][:300] + " " + f[3][:160],
+                                   "at_end_of_run": {nm: late(rr)[:300] for nm, rr in (("jit", a), ("opt", b), ("fast", f)) if len(rr) >= 9 and rr[8] != "="}})
+    rep.update({"n": n, "dist": dist, "nontrivial": nontrivial, "distinct": len(seen), "aliased": dict(aliased)})
     # ---- model ties: sonic_bind Jit / Opt / OptFast against the three processes
     rep["tie_bad"] = []
     rep["tied"] = collections.Counter()
@@ -396,7 +419,9 @@ def report11(ctx, rep, problems, known):
     ctx.cov["distinct_nontrivial"] = rep.get("nontrivial", 0)
     ctx.cov["rule"] = ("case = (config, destination type, initial value, input) from the C01 generators; each case is decoded in three processes "
                        "(default, SONIC_USE_OPTDEC=1, +SONIC_USE_FASTMAP=1); valid documents (encoding/json.Valid) are compared pairwise on "
-                       "error-or-not and value, structurally malformed inputs must be rejected by all; non-trivial = input not empty")
+                       "error-or-not and value, structurally malformed inputs must be rejected by all; every decoded destination is kept until "
+                       "the end of the process and dumped again after all other cases and two collections: the end-of-run dumps are what is "
+                       "compared, and a destination that changed after its Unmarshal returned is a violation; non-trivial = input not empty")
     ctx.cov["distribution"] = {"validity_structure_outcomes": dict(rep.get("dist", {})), "cases": n, "distinct_cases": rep.get("distinct", 0),
                                "known_finding_cases": dict(rep.get("known", {}))}
     for p in rep.get("bad", [])[:2]:
@@ -412,6 +437,7 @@ def report11(ctx, rep, problems, known):
         ctx.violation("a worker process crashed", {"output": rep["crash_output"]}, True)
     ctx.cov["traces_validated_against_impl"] = sum(rep.get("tied", {}).values())
     ctx.cov["distribution"]["model_tied"] = dict(rep.get("tied", {}))
+    ctx.cov["distribution"]["destinations_changed_after_return"] = rep.get("aliased", {})
     ctx.cov["tie_mismatches"] = len(rep.get("tie_bad", []))
     if not ctx.violations and rep.get("tie_bad"):
         p = rep["tie_bad"][0]
